@@ -522,7 +522,7 @@ package raft
 //@ func Raft.applyLoop
 //@   release s2 [order] operation.LogIndex == r.lastApplied + 1 && operation.LogIndex <= r.commitIndex && operation.LogTerm == Lterm[operation.LogIndex] && operation.Bytes == Ldata[operation.LogIndex] && Ltyp[operation.LogIndex] == OperationEntry && operation.OperationType == Replicated
 //@   at before-assign r.lastApplied assert [advance] newval == r.lastApplied + 1 && newval <= r.commitIndex
-//@   at call respond(r.configurationResponseCh, assert [config-answer] err == nil && response == *r.configuration
+//@   at call respond(r.configurationResponseCh, assert [config-answer] arg2 == nil && arg1 == *r.configuration
 //@   at call respond(responseCh, assert [answer] response.Operation.LogIndex == operation.LogIndex && response.Operation.LogTerm == operation.LogTerm && response.Operation.Bytes == operation.Bytes && err == nil
 
 //@ func Raft.applyConfiguration
@@ -558,11 +558,13 @@ package raft
 //@   ensures [entry] Llast == old(Llast) + 1 && configuration.Index == Llast && Lterm[Llast] == r.currentTerm && Ltyp[Llast] == ConfigurationEntry && forall i int :: i <= old(Llast) ==> Lterm[i] == old(Lterm[i]) && Ltyp[i] == old(Ltyp[i]) && Ldata[i] == old(Ldata[i])
 
 //@ func Raft.submitReplicatedOperation
+//@   flags inline
 //@   ensures [register] old(r.state) == Leader ==> Llast == old(Llast) + 1 && Lterm[Llast] == r.currentTerm && Ldata[Llast] == operationBytes && Ltyp[Llast] == OperationEntry && r.operationManager.pendingReplicated[Llast] == operationFuture.responseCh && operationFuture.responseCh != nil
 //@   ensures [not-leader] old(r.state) != Leader ==> answered[operationFuture.responseCh] && Llast == old(Llast) && r.operationManager.pendingReplicated == old(r.operationManager.pendingReplicated)
 //@   ensures [log-frame] forall i int :: i <= old(Llast) ==> Lterm[i] == old(Lterm[i]) && Ltyp[i] == old(Ltyp[i]) && Ldata[i] == old(Ldata[i])
 
 //@ func Raft.submitReadOnlyOperation
+//@   flags inline
 //@   requires readOnlyType == LinearizableReadOnly || readOnlyType == LeaseBasedReadOnly
 //@   ensures [not-leader] old(r.state) != Leader ==> answered[operationFuture.responseCh] && Llast == old(Llast)
 //@   at before-assign r.operationManager.pendingReadOnly[operation] assert [readIndex] r.state == Leader && operation != nil && operation.readIndex == r.commitIndex && !operation.quorumVerified && operation.OperationType == readOnlyType && newval == operationFuture.responseCh
